@@ -219,7 +219,7 @@ func TestVerif_C02_call(t *testing.T) {
 
 		var impl, class string
 		propOK := true
-		used, resends, challenged := 0, 0, false
+		used, resends := 0, 0
 		retriedCase, redirected := false, false
 		ptxt, panicked := verifh.Safely(func() {
 			cl := C()
@@ -261,9 +261,6 @@ func TestVerif_C02_call(t *testing.T) {
 					h := http.Header{"X-Ex": {strconv.Itoa(i)}}
 					if e.status == 401 {
 						h.Set("Www-Authenticate", c02Challenge)
-						if !isResend {
-							challenged = true
-						}
 					}
 					if e.redirect {
 						h.Set("Location", "http://c02.invalid/hop"+strconv.Itoa(i))
@@ -375,9 +372,7 @@ func TestVerif_C02_call(t *testing.T) {
 			}
 			retried := resp.Request != nil && resp.Request.RetryAttempt > 0
 			retriedCase = retried
-			// finding C02-2 (fixes/C02-2): digest challenge x SetOutput/SetOutputFile (the
-			// challenge is what gets saved; if saving it fails the challenge is not even answered)
-			inDigestOutput := digest != "o" && save && challenged
+			// (finding C02-2, digest challenge x SetOutput / SetOutputFile, is fixed in /repo 835f2f1)
 			if final != nil && final.fin == "eof" && err == nil {
 				// cached bytes, if any, are the final exchange's body
 				if b := resp.Bytes(); b != nil && string(b) != final.whole() && !save {
@@ -390,9 +385,6 @@ func TestVerif_C02_call(t *testing.T) {
 						class = "retry-output-writer-accumulates"
 					}
 				}
-			}
-			if class == "" && inDigestOutput {
-				class = "digest-output-not-final"
 			}
 			obs := c02RunOps(resp, ops)
 			impl = fmt.Sprintf("err=%s resp=%s st=%d ex=%d res=%s eres=%s out=%s left=%d obs=%s",
